@@ -966,6 +966,10 @@ func vC10Gen(e *vEnv, r *vRand) []vCase {
 	if p := os.Getenv("VERIF_C10_DOCS"); p != "" {
 		return vC10GenFromDocs(p)
 	}
+	if os.Getenv("VERIF_C10_ONLY") == "media" {
+		// development aid: only the cases with the Janus client
+		return vC10GenMedia(e, newVRand(uint64(e.seed)*0x9e3779b97f4a7c15+0xc10), e.scale(30, 150))
+	}
 	var cases []vCase
 	ncases := e.scale(600, 3000)
 	perState := e.scale(9, 14)
@@ -1001,6 +1005,8 @@ func vC10Gen(e *vEnv, r *vRand) []vCase {
 		}
 		cases = append(cases, vCase{Ops: ops})
 	}
+	// the media code behind the handlers (own random stream: the cases above stay what they were)
+	cases = append(cases, vC10GenMedia(e, newVRand(uint64(e.seed)*0x9e3779b97f4a7c15+0xc10), e.scale(30, 150))...)
 	return cases
 }
 
@@ -1069,7 +1075,7 @@ func (x *vC10Exec) ensureWorld(t *testing.T) error {
 	if x.w != nil {
 		return nil
 	}
-	w, err := vC10NewWorld(t, false)
+	w, err := vC10NewWorld(t, 0)
 	if err != nil {
 		return err
 	}
@@ -1088,7 +1094,11 @@ func (x *vC10Exec) op(t *testing.T, op string) string {
 			x.w.close()
 			x.w = nil
 		}
-		w, err := vC10NewWorld(t, len(f) > 1 && f[1] == "mcu=1")
+		mcu := 0
+		if len(f) > 1 && strings.HasPrefix(f[1], "mcu=") {
+			mcu, _ = strconv.Atoi(f[1][4:])
+		}
+		w, err := vC10NewWorld(t, mcu)
 		if err != nil {
 			return "fail:" + vEnc(err.Error())
 		}
@@ -1170,8 +1180,13 @@ func (x *vC10Exec) msg(f []string) string {
 	}
 	mcuKind := w.mcu && (vC10McuTypes[shape["m.dtype"]] || vC10McuTypes[shape["c.dtype"]])
 	if mcuKind && ok {
-		// MCU work runs in goroutines of its own: allow late replies
-		w.idle(w.snd, &snd, 60*time.Millisecond)
+		// MCU work runs in goroutines of its own: allow late replies (with the Janus client also
+		// the ones that come when a request for a stream nobody publishes gives up)
+		d := 60 * time.Millisecond
+		if w.janus != nil {
+			d += vC10McuTimeout
+		}
+		w.idle(w.snd, &snd, d)
 		s2, b2, _ := w.barrier()
 		snd, by = append(snd, s2...), append(by, b2...)
 	}
